@@ -7,11 +7,13 @@ class, and the structural triggers of the listed findings.
 Description format (everything JSON):
   lib    = [class]                                     top-level classes, in text order
   class  = {name, kind, alias: null | {base, mods}, extends: [{ref, mods}], classes: [class],
-            comps: [comp], eqs: [[expr, expr]]}
+            comps: [comp], eqs: [eqn], ieqs: [eqn]}            ieqs: the `initial equation` sections
+  eqn    = [expr, expr] | ["for", i, lo, hi, [[expr, expr], ...]]
   comp   = {name, type, prefixes: [str], dims: [int], mods: [smod], value: expr | null}
   smod   = {name: [str, ...], subs: [smod], value: expr | null}     as spelled: a.b(subs) = value
   expr   = ["num", k>=0] | ["bool", b] | ["str", s] | ["ref", [[name, [sub, ...]], ...]]
            | ["un", op, e] | ["bin", op, e1, e2]
+  sub    = k | expr of the forms ref / bin "+" / num (two levels of subscripts at most: v[i + off[k]])
 Canonical flat model:
   {"ok": true, "vars": [{name, type, prefixes, dims, attrs: {attr: fexpr}, value: fexpr | null}],
    "eqs": [[fexpr, fexpr]]}   |   {"ok": false, "err": str}
@@ -40,7 +42,7 @@ def show_expr(e):
     if k == "str":
         return '"%s"' % e[1]
     if k == "ref":
-        return ".".join(n + ("[%s]" % ",".join(str(i) for i in subs) if subs else "") for n, subs in e[1])
+        return ".".join(n + ("[%s]" % ",".join(show_sub(i) for i in subs) if subs else "") for n, subs in e[1])
     if k == "un":
         if e[1] == "-":
             return "(-%s)" % show_expr(e[2])
@@ -48,6 +50,19 @@ def show_expr(e):
     if k == "bin":
         return "(%s %s %s)" % (show_expr(e[2]), e[1], show_expr(e[3]))
     raise ValueError(e)
+
+
+def show_sub(i):
+    return str(i) if isinstance(i, int) else show_expr(i)
+
+
+def show_eqn(e, ind):
+    if e[0] == "for":
+        _, i, lo, hi, body = e
+        return ("%s  for %s in %d:%d loop\n" % (ind, i, lo, hi)
+                + "".join("%s    %s = %s;\n" % (ind, show_expr(l), show_expr(r)) for l, r in body)
+                + "%s  end for;\n" % ind)
+    return "%s  %s = %s;\n" % (ind, show_expr(e[0]), show_expr(e[1]))
 
 
 def show_smod(m):
@@ -76,10 +91,10 @@ def show_class(c, ind=""):
         dim = "[%s]" % ",".join(str(d) for d in k["dims"]) if k["dims"] else ""
         val = " = " + show_expr(k["value"]) if k["value"] is not None else ""
         s += "%s  %s%s %s%s%s%s;\n" % (ind, pre, k["type"], k["name"], dim, show_mods(k["mods"]), val)
+    if c.get("ieqs"):
+        s += ind + "initial equation\n" + "".join(show_eqn(e, ind) for e in c["ieqs"])
     if c["eqs"]:
-        s += ind + "equation\n"
-        for l, r in c["eqs"]:
-            s += "%s  %s = %s;\n" % (ind, show_expr(l), show_expr(r))
+        s += ind + "equation\n" + "".join(show_eqn(e, ind) for e in c["eqs"])
     s += "%send %s;\n" % (ind, c["name"])
     return s
 
@@ -115,6 +130,7 @@ class Index:
     def __init__(self, lib):
         self.lib = lib
         self.cls = {}
+        self._vis = {}
 
         def walk(c, path):
             p = path + (c["name"],)
@@ -126,24 +142,76 @@ class Index:
         for c in lib:
             walk(c, ())
 
-    def resolve(self, scope, ref):
-        """Modelica lookup restricted to lexical scopes: the first identifier is searched in `scope`
-        and then in the enclosing classes; the rest inside the class found.  Returns a builtin name
-        or an absolute class path."""
+    def own(self, p):
+        """local classes of class p (p = () is the root): name -> absolute path, in text order"""
+        if p and tuple(p) not in self.cls:
+            return {}
+        cs = self.lib if not p else self.cls[tuple(p)]["classes"]
+        return {c["name"]: tuple(p) + (c["name"],) for c in cs}
+
+    def base_names(self, p):
+        """(scope to look the base class up from, name, own-only at the innermost level)"""
+        c = self.cls[p]
+        if c["alias"] is not None:
+            return [(p[:-1], c["alias"]["base"], False)]
+        return [(p, e["ref"], True) for e in c["extends"]]
+
+    def visible(self, p, stack=()):
+        """classes visible in class p: its own local classes, then those of its base classes"""
+        p = tuple(p)
+        if not p:
+            return self.own(())
+        if p in self._vis:
+            return self._vis[p]
+        if p in stack:
+            raise Reject("cyclic class structure")
+        if p not in self.cls:
+            return {}
+        out = dict(self.own(p))
+        for (sc, name, oo) in self.base_names(p):
+            b = self.resolve(sc, name, oo, stack + (p,))
+            if not isinstance(b, str):
+                for n, q in self.visible(b, stack + (p,)).items():
+                    out.setdefault(n, q)
+        self._vis[p] = out
+        return out
+
+    def resolve(self, scope, ref, own_only_inner=False, stack=()):
+        """Modelica lookup: the first identifier among the classes visible in `scope` (only its own
+        local classes for the base class name of one of its extends clauses), then likewise in the
+        enclosing classes; the remaining identifiers among the classes visible in the class found.
+        Returns a builtin name or an absolute class path."""
         parts = tuple(ref.split("."))
         if parts[0] in BUILTIN:
             if len(parts) > 1:
                 raise Reject("lookup inside builtin")
             return parts[0]
+        scope = tuple(scope)
+        for j in range(len(scope), -1, -1):
+            s = scope[:j]
+            cands = self.own(s) if (own_only_inner and j == len(scope)) else self.visible(s, stack)
+            if parts[0] in cands:
+                base = cands[parts[0]]
+                for n in parts[1:]:
+                    v = self.visible(base, stack)
+                    if n not in v:
+                        raise Reject("class %s not found in %s" % (ref, ".".join(base)))
+                    base = v[n]
+                return base
+        raise Reject("class %s not found from %s" % (ref, ".".join(scope)))
+
+    def resolve_lexical(self, scope, ref):
+        """What a search of the *original* (un-instantiated) classes finds: own local classes only, at
+        every level; None when that fails."""
+        parts = tuple(ref.split("."))
+        if parts[0] in BUILTIN:
+            return parts[0] if len(parts) == 1 else None
         s = tuple(scope)
         while True:
             if s + (parts[0],) in self.cls:
-                full = s + parts
-                if full in self.cls:
-                    return full
-                raise Reject("class %s not found in %s" % (ref, ".".join(s + (parts[0],))))
+                return s + parts if s + parts in self.cls else None
             if not s:
-                raise Reject("class %s not found from %s" % (ref, ".".join(scope)))
+                return None
             s = s[:-1]
 
 
@@ -178,7 +246,7 @@ class Oracle:
         if c["alias"] is not None:
             out.append((self.ix.resolve(cpath[:-1], c["alias"]["base"]), desugar(c["alias"]["mods"])))
         for e in c["extends"]:
-            out.append((self.ix.resolve(cpath, e["ref"]), desugar(e["mods"])))
+            out.append((self.ix.resolve(cpath, e["ref"], True), desugar(e["mods"])))
         for b, _ in out:
             if isinstance(b, str) or self.base_of_alias(b) is not None:
                 raise Reject("extends of an elementary type in a long class")
@@ -199,11 +267,11 @@ class Oracle:
             raise Reject("duplicate element in %s" % ".".join(cpath))
         return out
 
-    def member_eqs(self, cpath):
+    def member_eqs(self, cpath, key="eqs"):
         out = []
         for b, _ in self.ext_list(cpath):
-            out += self.member_eqs(b)
-        return out + [tuple(e) for e in self.ix.cls[cpath]["eqs"]]
+            out += self.member_eqs(b, key)
+        return out + list(self.ix.cls[cpath].get(key, []))
 
     def comp_type(self, k, decl):
         """('leaf', builtin, alias mod lists) or ('class', path) — resolved in the declaring class."""
@@ -360,10 +428,14 @@ class Oracle:
                 val = None
             vars_[name] = dict(name=name, type=b, prefixes=pre, dims=list(dims), attrs=attrs, value=val)
         eqs = []
+        ieqs = []
+        self.ieqs = ieqs
         for it in items:
             if it[0] == "inst":
-                for l, r in self.member_eqs(it[2]):
-                    eqs.append((rename(l, it[1], names), rename(r, it[1], names)))
+                for e in self.member_eqs(it[2]):
+                    eqs.append(rename_eqn(e, it[1], names))
+                for e in self.member_eqs(it[2], "ieqs"):
+                    ieqs.append(rename_eqn(e, it[1], names))
         flow_eqs = []
         # a flow variable nobody connects is zero (pymoca's connector expansion; C09's business otherwise)
         for v in vars_.values():
@@ -385,23 +457,56 @@ def expr_refs(e):
     return []
 
 
+def canon_unrenamed(x):
+    """canonical form of a subscript (or part list) that is left as written"""
+    if isinstance(x, int):
+        return x
+    if x[0] == "num":
+        return x[1]
+    if x[0] == "ref":
+        parts = x[1]
+        if len(parts) == 1:
+            return ["ref", parts[0][0], [canon_unrenamed(i) for i in parts[0][1]]]
+        return ["uref", [[n, [canon_unrenamed(i) for i in ss]] for n, ss in parts]]
+    if x[0] == "bin":
+        return ["bin", x[1], canon_unrenamed(x[2]), canon_unrenamed(x[3])]
+    return list(x)
+
+
+def rename_sub(x, prefix, names):
+    if isinstance(x, int):
+        return x
+    if x[0] == "num":
+        return x[1]
+    return rename(x, prefix, names)
+
+
 def rename(e, prefix, names):
-    """A reference written in the instance `prefix` denotes the variable prefix.r when that exists."""
+    """A reference written in the instance `prefix` denotes the variable prefix.r when that exists;
+    the same for names and references inside its subscripts.  A reference that is left alone is
+    left alone entirely."""
     k = e[0]
     if k == "ref":
         parts = e[1]
         p = tuple(prefix) + tuple(n for n, _ in parts)
-        subs = [i for _, ss in parts for i in ss]
         if p in names:
-            return ["ref", ".".join(p), subs]
-        if len(parts) == 1:
-            return ["ref", parts[0][0], subs]
-        return ["uref", [[n, list(ss)] for n, ss in parts]]
+            return ["ref", ".".join(p), [rename_sub(i, prefix, names) for _, ss in parts for i in ss]]
+        return canon_unrenamed(e)
     if k == "un":
         return ["un", e[1], rename(e[2], prefix, names)]
     if k == "bin":
         return ["bin", e[1], rename(e[2], prefix, names), rename(e[3], prefix, names)]
     return list(e)
+
+
+def rename_eqn(e, prefix, names):
+    if e[0] == "for":
+        return ["for", e[1], e[2], e[3], [[rename(l, prefix, names), rename(r, prefix, names)] for l, r in e[4]]]
+    return [rename(e[0], prefix, names), rename(e[1], prefix, names)]
+
+
+def is_sym_eq(e):
+    return e[0] != "for" and e[0][0] == "sym"
 
 
 # ---- pymoca side ------------------------------------------------------------------------------------
@@ -451,6 +556,18 @@ def py_expr(e):
     return ["other", type(e).__name__]
 
 
+def py_eqn(e):
+    from pymoca import ast
+    if isinstance(e, ast.Equation):
+        return [py_expr(e.left), py_expr(e.right)]
+    if isinstance(e, ast.ForEquation) and len(e.indices) == 1 and isinstance(e.indices[0].expression, ast.Slice):
+        sl = e.indices[0].expression
+        lo, hi, st = py_expr(sl.start), py_expr(sl.stop), py_expr(sl.step)
+        if lo[0] == "num" and hi[0] == "num" and st == ["num", 1] and all(isinstance(x, ast.Equation) for x in e.equations):
+            return ["for", e.indices[0].name, lo[1], hi[1], [[py_expr(x.left), py_expr(x.right)] for x in e.equations]]
+    return [["other", type(e).__name__], ["none"]]
+
+
 def _is_none(e):
     from pymoca import ast
     return isinstance(e, ast.Primary) and e.value is None
@@ -481,13 +598,8 @@ def py_flatten(text, target):
                 attrs[a] = py_expr(v)
             vars_.append(dict(name=n, type=str(s.type), prefixes=[p for p in s.prefixes if p != "state"],
                               dims=dims, attrs=attrs, value=None if _is_none(s.value) else py_expr(s.value)))
-        eqs = []
-        for e in c.equations:
-            if isinstance(e, ast.Equation):
-                eqs.append([py_expr(e.left), py_expr(e.right)])
-            else:
-                eqs.append([["other", type(e).__name__], ["none"]])
-        return dict(ok=True, vars=vars_, eqs=eqs)
+        return dict(ok=True, vars=vars_, eqs=[py_eqn(e) for e in c.equations],
+                    ieqs=[py_eqn(e) for e in c.initial_equations])
     except Exception as e:  # noqa: BLE001 — the outcome is the exception class
         return dict(ok=False, err=type(e).__name__, msg=str(e)[:300])
 
@@ -496,7 +608,8 @@ def py_flatten(text, target):
 def oracle_c07(lib, target, obs):
     """C07's statement on pymoca's flat model `obs`; None or (what, expected, observed)."""
     try:
-        vars_, eqs, value_eqs = Oracle(lib).flat(target)
+        orc = Oracle(lib)
+        vars_, eqs, value_eqs = orc.flat(target)
     except Reject as r:
         if obs["ok"]:
             return ("a program outside the subset's legality rules was flattened (%s)" % r, "rejected", "flattened")
@@ -519,18 +632,25 @@ def oracle_c07(lib, target, obs):
         if v["dims"] != w["dims"]:
             return ("dimensions of %s wrong" % v["name"], w["dims"], v["dims"])
     want = sorted(map(_key, eqs))
-    got = sorted(_key(e) for e in obs["eqs"] if e[0][0] != "sym")
+    got = sorted(_key(e) for e in obs["eqs"] if not is_sym_eq(e))
     if got != want:
         miss = [e for e in want if e not in got]
         extra = [e for e in got if e not in want]
         return ("flat equations are not the renamed equations of every instance: missing %s, extra %s" % (miss[:3], extra[:3]),
                 want, got)
+    want = sorted(map(_key, orc.ieqs))
+    got = sorted(_key(e) for e in obs.get("ieqs", []))
+    if got != want:
+        miss = [e for e in want if e not in got]
+        extra = [e for e in got if e not in want]
+        return ("flat initial equations are not the renamed initial equations of every instance: missing %s, extra %s"
+                % (miss[:3], extra[:3]), want, got)
     return None
 
 
 def _key(e):
     import json
-    return json.dumps([e[0], e[1]], sort_keys=True)
+    return json.dumps(list(e), sort_keys=True)
 
 
 def _is_value_eq(e, value_eqs):
@@ -554,9 +674,9 @@ def oracle_c08(lib, target, obs):
     veq = {l[1]: r for l, r in value_eqs}
     flow = set(v["name"] for v in vars_.values() if "flow" in v["prefixes"])
     olist = {}
-    for l, r in obs["eqs"]:
-        if l[0] == "sym":
-            olist.setdefault(l[1], []).append(r)
+    for e in obs["eqs"]:
+        if is_sym_eq(e):
+            olist.setdefault(e[0][1], []).append(e[1])
     oveq = {}
     for n, rs in olist.items():
         if n in flow and ["num", 0] in rs:
@@ -657,12 +777,14 @@ class Gen:
     inner and in the outer scope.  Every site keeps its *semantic* modification list in `sites`, so
     that the same library can be spelled in several ways."""
 
-    def __init__(self, rng, n_classes=5, mod_rate=0.6, p_nested=0.3, p_pkg=0.5, ref_rate=0.5):
+    def __init__(self, rng, n_classes=5, mod_rate=0.6, p_nested=0.3, p_pkg=0.5, ref_rate=0.5, p_scenario=0.2):
+        self.p_scenario = p_scenario
         self.rng = rng
         self.lib = []
         self.done = []        # completed long classes (usable as component type / base), absolute paths
         self.aliases = []     # completed elementary type definitions
         self.sites = []       # (holder dict with "mods", semantic list) — extends clauses and declarations
+        self.inh_users = set()  # local classes with a component whose type their host only inherits
         self.counter = 0
         self.n_classes = n_classes
         self.mod_rate, self.p_nested, self.p_pkg, self.ref_rate = mod_rate, p_nested, p_pkg, ref_rate
@@ -674,43 +796,60 @@ class Gen:
     def oracle(self):
         return Oracle(self.lib)
 
-    def ref_to(self, scope, cpath):
-        """A spelling of class `cpath` that resolves from `scope` (shortest suffixes preferred at random)."""
+    def ref_to(self, scope, cpath, base_name=False):
+        """A spelling of class `cpath` that resolves from `scope` (shortest suffixes preferred at random);
+        base class names are spelled so that a search of the classes as written finds them too."""
         ix = Index(self.lib)
         cands = []
         for i in range(len(cpath) - 1, -1, -1):
             r = ".".join(cpath[i:])
             try:
-                if ix.resolve(scope, r) == tuple(cpath):
+                if ix.resolve(scope, r, base_name) == tuple(cpath) and (
+                        not base_name or ix.resolve_lexical(scope, r) == tuple(cpath)):
                     cands.append(r)
             except Reject:
                 pass
         if not cands:
             return None
+
+        def through_enclosing(r):
+            # spelled through a class that encloses `scope` (pymoca then copies the original of a local
+            # class instead of its instance, finding C07-F2): rare on purpose
+            f = r.split(".")
+            if len(f) < 2:
+                return False
+            try:
+                b = ix.resolve(scope, f[0])
+            except Reject:
+                return False
+            return not isinstance(b, str) and tuple(scope)[:len(b)] == b and ix.cls[b]["kind"] != "package"
+        plain = [r for r in cands if not through_enclosing(r)]
+        if plain and self.rng.random() < 0.9:
+            cands = plain
         return cands[0] if self.rng.random() < 0.6 else self.rng.choice(cands)
 
-    def new_class(self, container, cpath_parent, kind="model", depth=0):
+    def new_class(self, container, cpath_parent, kind="model", depth=0, force_local=False, force_base=None,
+                  force_inh=False):
+        """force_local: certainly define local classes; force_base: extend this class first;
+        force_inh: (in a local class) certainly declare a component whose type the host only inherits"""
         rng = self.rng
         name = self.fresh("C")
-        c = dict(name=name, kind=kind, alias=None, extends=[], classes=[], comps=[], eqs=[])
+        c = dict(name=name, kind=kind, alias=None, extends=[], classes=[], comps=[], eqs=[], ieqs=[])
         container.append(c)
         me = tuple(cpath_parent) + (name,)
-        # local classes first
-        if depth < 2 and rng.random() < self.p_nested:
-            for _ in range(rng.choice([1, 1, 2])):
-                if rng.random() < 0.25:
-                    self.new_alias(c["classes"], me)
-                else:
-                    self.new_class(c["classes"], me, "model", depth + 1)
         orc = self.oracle()
-        # extends
+        # extends (before the local classes, which may then use the classes this class inherits)
         inherited = set()
-        avail = [d for d in self.done if d != me]
-        for _ in range(rng.choice([0, 0, 1, 1, 1, 2, 2, 3])):
+        avail = [d for d in self.done if d != me and d not in self.inh_users]
+        for n_ext in range(rng.choice([0, 0, 1, 1, 1, 2, 2, 3]) if force_base is None else rng.choice([1, 1, 2])):
             if not avail:
                 break
-            b = rng.choice(avail)
-            r = self.ref_to(me, b)
+            with_local = [d for d in avail if any(x["alias"] is None and x["kind"] != "package"
+                                                  for x in orc.ix.cls[d]["classes"])]
+            b = rng.choice(with_local) if with_local and rng.random() < 0.4 else rng.choice(avail)
+            if force_base is not None and n_ext == 0:
+                b = force_base
+            r = self.ref_to(me, b, base_name=True)
             if r is None:
                 continue
             try:
@@ -721,6 +860,14 @@ class Gen:
                 continue
             inherited |= bn
             c["extends"].append(dict(ref=r, mods=[], _base=b))
+        # local classes
+        if depth < 2 and (force_local or force_base is not None or rng.random() < self.p_nested):
+            for n_loc in range(rng.choice([1, 1, 2])):
+                if rng.random() < 0.25 and not (n_loc == 0 and (force_local or force_base is not None)):
+                    self.new_alias(c["classes"], me)
+                else:
+                    self.new_class(c["classes"], me, "model", depth + 1, force_inh=force_base is not None and n_loc == 0)
+        orc = self.oracle()
         # components
         taken = set(inherited)
         ncomp = rng.randint(1, 4)
@@ -732,15 +879,28 @@ class Gen:
                 continue
             taken.add(cn)
             used_as_base = set(e["_base"] for e in c["extends"])
-            cls_av = [d for d in self.done if d != me]
-            if cls_av and rng.random() < 0.42:
+            cls_av = [d for d in self.done if d != me and (d not in self.inh_users or me[:len(d) - 1] == d[:-1])]
+            want_inh = force_inh and not any("_cls" in q for q in c["comps"])
+            if cls_av and (want_inh or rng.random() < 0.42):
                 own_local = [d for d in cls_av if d[:-1] == me]
-                ty = rng.choice(own_local) if own_local and rng.random() < 0.5 else rng.choice(cls_av)
+                ix = Index(self.lib)
+                # classes an enclosing class (or this one) only inherits
+                inh_vis = [q for j in range(1, len(me) + 1) for q in ix.visible(me[:j]).values()
+                           if q not in ix.own(me[:j]).values() and q in cls_av]
+                if inh_vis and (want_inh or rng.random() < (0.7 if depth >= 1 else 0.3)):
+                    ty = rng.choice(inh_vis)
+                    if depth >= 1:
+                        self.inh_users.add(me)
+                else:
+                    ty = rng.choice(own_local) if own_local and rng.random() < 0.5 else rng.choice(cls_av)
                 r = self.ref_to(me, ty)
                 if r is None:
                     continue
                 dims = [rng.choice([2, 3])] if rng.random() < 0.15 else []
-                c["comps"].append(dict(name=cn, type=r, prefixes=[], dims=dims, mods=[], value=None, _cls=ty))
+                c["comps"].append(dict(name=cn, type=r, prefixes=[], dims=dims, mods=[], value=None, _cls=ty,
+                                       _inst_found=(ty in inh_vis or ty[:-1] == me or
+                                                    any(Index(self.lib).cls[ty[:j]]["kind"] != "package"
+                                                        for j in range(1, len(ty))))))
             else:
                 opts = ["Real"] * 5 + ["Integer", "Boolean"]
                 al = [a for a in self.aliases if self.ref_to(me, a) is not None]
@@ -758,9 +918,16 @@ class Gen:
                 if ty == "Boolean" and pre == ["flow"]:
                     pre = []
                 dims = []
-                if ty == "Real" and rng.random() < 0.2:
+                if ty == "Real" and rng.random() < 0.3:
                     dims = [rng.choice([2, 3])] if rng.random() < 0.8 else [2, 2]
                 c["comps"].append(dict(name=cn, type=ty, prefixes=pre, dims=dims, mods=[], value=None))
+        # integer parameters for computed subscripts
+        if any(k["type"] == "Real" and len(k["dims"]) == 1 for k in c["comps"]) and rng.random() < 0.7:
+            for nm, dims in (("n", []), ("off", [2])):
+                if nm not in taken and rng.random() < 0.8:
+                    taken.add(nm)
+                    c["comps"].append(dict(name=nm, type="Integer", prefixes=["parameter"], dims=dims, mods=[],
+                                           value=(["num", rng.randint(0, 2)] if not dims else None)))
         self.done.append(me)
         # expressions over this class's scalar Real/Integer variables
         orc = self.oracle()
@@ -771,7 +938,7 @@ class Gen:
             self.sites.append((e, sem))
         for k in c["comps"]:
             if "_cls" in k:
-                sem = self.gen_sem(orc, k["_cls"], scal, arrs)
+                sem = self.gen_sem(orc, k["_cls"], scal, arrs, avoid_alias=k.get("_inst_found", False))
                 self.sites.append((k, sem))
             else:
                 sem = []
@@ -803,7 +970,82 @@ class Gen:
                 break
             lhs = rng.choice(scal + arrs) if arrs and rng.random() < 0.3 else rng.choice(scal)
             c["eqs"].append([["ref", lhs], self.num_expr(scal, arrs, allow_fn=True)])
+        # for-equations with computed subscripts over own arrays
+        own_arr = [k for k in c["comps"] if k["type"] == "Real" and len(k["dims"]) == 1]
+        ints = [[[k["name"], []]] for k in c["comps"] if k["type"] == "Integer" and not k["dims"]]
+        try:
+            ints += [[[n, []] for n in it[1]] for it in orc.instances(me)
+                     if it[0] == "leaf" and it[3] == "Integer" and not it[4] and len(it[1]) == 2]
+        except Reject:
+            pass
+        offs = [k["name"] for k in c["comps"] if k["type"] == "Integer" and len(k["dims"]) == 1]
+        if own_arr and rng.random() < 0.6:
+            for _ in range(rng.choice([1, 1, 2])):
+                v = rng.choice(own_arr)
+                i = rng.choice(["i", "j"])
+                body = []
+                for _ in range(rng.choice([1, 1, 2])):
+                    lhs = ["ref", [[v["name"], [self.sub_expr(i, ints, offs)]]]]
+                    rhs = self.num_expr(scal, arrs, allow_fn=False)
+                    if rng.random() < 0.5:
+                        w = rng.choice(own_arr)
+                        rhs = ["bin", rng.choice(["+", "*"]), ["ref", [[w["name"], [self.sub_expr(i, ints, offs)]]]], rhs]
+                    if rng.random() < 0.3:
+                        rhs = ["bin", "*", rhs, ["ref", [[i, []]]]]
+                    body.append([lhs, rhs])
+                c["eqs"].append(["for", i, 1, v["dims"][0], body])
+        if own_arr and rng.random() < 0.3 and scal:
+            v = rng.choice(own_arr)
+            c["eqs"].append([["ref", rng.choice(scal)], ["ref", [[v["name"], [self.sub_expr(None, ints, offs)]]]]])
+        # initial equations
+        for _ in range(rng.choice([0, 0, 1, 1, 2])):
+            if not scal:
+                break
+            lhs = rng.choice(scal + arrs) if arrs and rng.random() < 0.3 else rng.choice(scal)
+            c["ieqs"].append([["ref", lhs], self.num_expr(scal, arrs, allow_fn=False)])
+        if own_arr and rng.random() < 0.25:
+            v = rng.choice(own_arr)
+            c["ieqs"].append([["ref", [[v["name"], [self.sub_expr(None, ints, offs)]]]], ["num", rng.randint(0, 9)]])
         return me
+
+    def sub_expr(self, i, ints, offs):
+        """a subscript of at most two levels: i, i + n, i + off[n], off[i], off[n] + i, n, a.n, literal"""
+        rng = self.rng
+        nm = lambda x: ["ref", [[x, []]]]
+        atoms0 = [nm(i)] if i else []
+        atoms0 += [["ref", copy.deepcopy(p)] for p in ints if len(p) == 1]
+
+        def sub0():
+            r = rng.random()
+            if atoms0 and r < 0.6:
+                a = rng.choice(atoms0)
+                return a if rng.random() < 0.7 else ["bin", "+", a, ["num", rng.randint(1, 2)]]
+            return rng.randint(1, 2)
+        forms = []
+        if i:
+            forms += ["i", "i+n", "i+off", "i+off", "i+off", "off[i]", "off+i"]
+        forms += ["n", "lit", "off[n]"]
+        f = rng.choice(forms)
+        ref_n = ["ref", copy.deepcopy(rng.choice(ints))] if ints else rng.randint(1, 2)
+        names0 = [a for a in atoms0 if a != nm(i)]
+        inner = rng.choice(names0) if names0 and rng.random() < 0.7 else sub0()
+        off = (["ref", [[rng.choice(offs), [inner]]]] if offs else rng.randint(0, 1))
+        if f == "i":
+            return nm(i)
+        wrap = lambda x: ["num", x] if isinstance(x, int) else x
+        if f == "i+n":
+            return ["bin", "+", nm(i), wrap(ref_n)]
+        if f == "i+off":
+            return ["bin", "+", nm(i), wrap(off)]
+        if f == "off+i":
+            return ["bin", "+", wrap(off), nm(i)]
+        if f == "off[i]":
+            return ["ref", [[rng.choice(offs), [nm(i)]]]] if offs else nm(i)
+        if f == "n":
+            return ref_n
+        if f == "off[n]":
+            return off
+        return rng.randint(1, 2)
 
     def new_alias(self, container, cpath_parent):
         rng = self.rng
@@ -811,8 +1053,8 @@ class Gen:
         al = [a for a in self.aliases if self.ref_to(tuple(cpath_parent) + (name,), a) is not None]
         if al and rng.random() < 0.35:
             base_p = rng.choice(al)
-            container.append(dict(name=name, kind="type", alias=None, extends=[], classes=[], comps=[], eqs=[]))
-            base = self.ref_to(tuple(cpath_parent), base_p)
+            container.append(dict(name=name, kind="type", alias=None, extends=[], classes=[], comps=[], eqs=[], ieqs=[]))
+            base = self.ref_to(tuple(cpath_parent), base_p, base_name=True)
             container.pop()
             if base is None:
                 base = "Real"
@@ -822,7 +1064,7 @@ class Gen:
                 for a in rng.sample(NUM_ATTRS, rng.choice([0, 1, 1, 2]))]
         if rng.random() < 0.2:
             mods.append(dict(name=["unit"], subs=[], value=["str", "V"]))
-        c = dict(name=name, kind="type", alias=dict(base=base, mods=mods), extends=[], classes=[], comps=[], eqs=[])
+        c = dict(name=name, kind="type", alias=dict(base=base, mods=mods), extends=[], classes=[], comps=[], eqs=[], ieqs=[])
         container.append(c)
         self.aliases.append(tuple(cpath_parent) + (name,))
 
@@ -862,7 +1104,7 @@ class Gen:
         return ["bin", rng.choice(["+", "-", "*", "/"]), self.num_expr(scal, arrs, depth + 1, allow_fn),
                 self.num_expr(scal, arrs, depth + 1, allow_fn)]
 
-    def gen_sem(self, orc, cls, scal, arrs):
+    def gen_sem(self, orc, cls, scal, arrs, avoid_alias=False):
         """Semantic modifications for an instance / base `cls`, written in a class whose refs are scal/arrs."""
         rng = self.rng
         if rng.random() > self.mod_rate:
@@ -876,6 +1118,8 @@ class Gen:
             if not leaves:
                 break
             _, path, k, b, dims, _al = rng.choice(leaves)
+            if avoid_alias and _al and rng.random() < 0.85:
+                continue          # (a local class's type-definition leaves modified from outside: C07-F2)
             if b == "Boolean":
                 if (path, None) not in used and set(k["prefixes"]) & {"parameter", "constant"} and not dims:
                     used.add((path, None))
@@ -908,7 +1152,7 @@ class Gen:
         top = self.lib
         pkg = None
         if rng.random() < self.p_pkg:
-            pkg = dict(name=self.fresh("P"), kind="package", alias=None, extends=[], classes=[], comps=[], eqs=[])
+            pkg = dict(name=self.fresh("P"), kind="package", alias=None, extends=[], classes=[], comps=[], eqs=[], ieqs=[])
             top.append(pkg)
         for _ in range(rng.choice([0, 1, 1, 2])):
             if pkg is not None and rng.random() < 0.5:
@@ -916,12 +1160,19 @@ class Gen:
             else:
                 self.new_alias(top, ())
         last = None
+        scenario = rng.random() < self.p_scenario
         for i in range(self.n_classes):
+            if scenario and i == self.n_classes - 1:
+                # a host that inherits a local class and uses it inside a local class of its own
+                b = self.new_class(top, (), force_local=True)
+                last = self.new_class(top, (), force_base=b)
+                if rng.random() < 0.5:
+                    break
             if pkg is not None and rng.random() < 0.45 and i < self.n_classes - 1:
                 if rng.random() < 0.25:
                     sub = next((c for c in pkg["classes"] if c["kind"] == "package"), None)
                     if sub is None:
-                        sub = dict(name=self.fresh("Q"), kind="package", alias=None, extends=[], classes=[], comps=[], eqs=[])
+                        sub = dict(name=self.fresh("Q"), kind="package", alias=None, extends=[], classes=[], comps=[], eqs=[], ieqs=[])
                         pkg["classes"].append(sub)
                     last = self.new_class(sub["classes"], (pkg["name"], sub["name"]))
                 else:
@@ -1023,10 +1274,11 @@ def triggers(lib, target):
         return d
 
     def chain_true(cp):
-        ch = [visible(cp)]
+        """lookup levels of a class found as an original: (names -> class, is the level an instance?)"""
+        ch = [(visible(cp), True)]
         p = cp[:-1]
         while True:
-            ch.append(own_nested(p))
+            ch.append((own_nested(p), False))
             if not p:
                 break
             p = p[:-1]
@@ -1036,11 +1288,20 @@ def triggers(lib, target):
         parts = tuple(ref.split("."))
         if parts[0] in BUILTIN:
             return parts[0]
-        for level in chain:
+        for level, _ in chain:
             if parts[0] in level:
                 full = level[parts[0]] + parts[1:]
                 return full if full in cls else None
         return None
+
+    def inst_found(chain, ref):
+        """is the class named `ref` found through an instance-level scope (as an already instantiated
+        local class)?"""
+        first = ref.split(".")[0]
+        for level, is_inst in chain:
+            if first in level:
+                return is_inst
+        return False
 
     def inside(d, e):
         return len(d) > len(e) and d[:len(e)] == e
@@ -1062,6 +1323,11 @@ def triggers(lib, target):
             return False
         return any(inside(d, decl[:-1]) for d in (inh_path(inst_class, decl) or []))
 
+    # base class names are searched in the original classes (own local classes only, at every level)
+    for cp_, c_ in cls.items():
+        for (sc_, name_, oo_) in orc.ix.base_names(cp_):
+            if orc.ix.resolve_lexical(cp_, name_) != orc.ix.resolve(sc_, name_, oo_):
+                out.add("F15")
     all_long = [cp_ for cp_, c_ in cls.items() if c_["kind"] != "package" and orc.base_of_alias(cp_) is None]
     rebased = set()           # local classes used as a base class from inside their declaring class
     for d_ in all_long:
@@ -1111,36 +1377,58 @@ def triggers(lib, target):
         names = orc.names
         bindings = list(orc.bindings)
         seen_cls = set()
+        inst_class, pre_inst = {}, {}
         for it in list(orc.instances(root)):
-            if it[0] != "inst" or it[2] in seen_cls:
+            if it[0] != "inst":
                 continue
             cpath = it[2]
-            seen_cls.add(cpath)
+            inst_class[it[1]] = cpath
             cchain = rchain if cpath == root else chain_true(cpath)
+            # a component whose class is a local class of an instance is a copy of that (already
+            # instantiated) class: its component types were looked up when the local class was
+            # instantiated in place (covered by that class's own entry in the queue)
+            if it[1]:
+                cl = inst_class[it[1][:-1]]
+                kk = orc.member_named(cl, it[1][-1])[0]
+                cl_chain = rchain if cl == root else chain_true(cl)
+                pre_inst[it[1]] = pre_inst.get(it[1][:-1], False) or inst_found(cl_chain, kk["type"])
+            if not pre_inst.get(it[1], False):
+                for (k, decl, _) in orc.members(cpath):
+                    if k["type"] in BUILTIN:
+                        continue
+                    if sim_resolve(cchain, k["type"]) != orc.ix.resolve(decl, k["type"]):
+                        out.add("F15")
+            if cpath in seen_cls:
+                continue
+            seen_cls.add(cpath)
             for cp in all_classes(cpath):
                 cdef = cls[cp]
                 if cdef["alias"] is not None:
                     walk_spelling(cdef["alias"]["mods"], orc.ix.resolve(cp[:-1], cdef["alias"]["base"]))
                 for e in cdef["extends"]:
-                    walk_spelling(e["mods"], orc.ix.resolve(cp, e["ref"]))
+                    walk_spelling(e["mods"], orc.ix.resolve(cp, e["ref"], True))
                     if any(len(m["name"]) > 1 for m in e["mods"]) and any(cp[:j] in rebased for j in range(1, len(cp) + 1)):
                         out.add("RE"); sub.add("RE2")      # the dotted name is shortened in place at the first instantiation
                 for k in cdef["comps"]:
                     ty = orc.comp_type(k, cp)
                     walk_spelling(k["mods"], ("leaf",) if ty[0] == "leaf" else ty[1])
+                    if k["type"] not in BUILTIN and "." in k["type"]:
+                        try:
+                            first = orc.ix.resolve(cp, k["type"].split(".")[0])
+                        except Reject:
+                            first = None
+                        if first is not None and not isinstance(first, str) and cp[:len(first)] == first \
+                                and cls[first]["kind"] != "package":
+                            # named through a class that is being instantiated right now: the original
+                            # (already rewritten in place) local class is copied, not its instance
+                            out.add("RE"); sub.add("RE4")
                     if k["type"] not in BUILTIN and (k["mods"] or k["value"] is not None) and any(
                             b == cp and is_local(b) and inside(d, b[:-1]) for d, b in pairs(cpath)):
                         out.add("RE"); sub.add("RE3")      # scopes noted at the first instantiation of the local base class
                 for n in cdef["classes"]:
                     if n["kind"] != "package" and n["alias"] is None:
                         nr = cp + (n["name"],)
-                        queue.append((nr, None if (cp == cpath and chain is None and cpath == root) or
-                                      (cp == cpath and cpath != root) else [visible(nr)] + cchain))
-            for (k, decl, _) in orc.members(cpath):
-                if k["type"] in BUILTIN:
-                    continue
-                if sim_resolve(cchain, k["type"]) != orc.ix.resolve(decl, k["type"]):
-                    out.add("F15")
+                        queue.append((nr, [(visible(nr), True)] + cchain))
         for (path, attr, w, expr, nalias, kind) in bindings:
             if w is None:
                 if int(kind[4:]) >= 3:
@@ -1156,10 +1444,9 @@ def triggers(lib, target):
                 for (_, cl, (kk, dd, _)) in lv:
                     x = orc.ix.resolve(dd, kk["type"])
                     # is the type found as an already instantiated local class, or the symbol already marked?
-                    if marked(dd, cl) or (not isinstance(x, str) and is_local(x) and (
-                            any(x[:j] in set(all_classes(cl)) for j in range(1, len(x))) or
-                            (root != troot and any(inside(root, x[:j]) and cls[x[:j]]["kind"] != "package"
-                                                   for j in range(1, len(x)))))):
+                    if marked(dd, cl) or (not isinstance(x, str) and (
+                            inst_found(rchain if cl == root else chain_true(cl), kk["type"]) or
+                            (is_local(x) and any(x[:j] in set(all_classes(cl)) for j in range(1, len(x)))))):
                         hit = True
                 if hit:
                     out.add("RE"); sub.add("RE1")
